@@ -62,14 +62,24 @@ def stat_digest(stat):
     return out
 
 
-def install(model, seeds, with_stats=True):
-    """install the construct/action hooks on a ProgModel"""
+def install(model, seeds, with_stats=True, reuse_streams=False):
+    """install the construct/action hooks on a ProgModel.  reuse_streams: the stream objects are created once per
+    model and re-seeded with set_seed() for every replication (what a StreamSeedUpdater does in an experiment)."""
     model.seeds = list(seeds)
+    model.stream_objects = None
 
     def construct(m):
         from pydsol.core.pubsub import EventProducer
         from pydsol.core.streams import MersenneTwister
-        m.streams = [MersenneTwister(s) for s in m.seeds]
+        if reuse_streams:
+            if m.stream_objects is None or len(m.stream_objects) != len(m.seeds):
+                m.stream_objects = [MersenneTwister(s) for s in m.seeds]
+            else:
+                for so, sd in zip(m.stream_objects, m.seeds):
+                    so.set_seed(sd)
+            m.streams = m.stream_objects
+        else:
+            m.streams = [MersenneTwister(s) for s in m.seeds]
         m.draws = []
         m.reinit_log = []
         if with_stats:
